@@ -39,7 +39,10 @@ MUTS = ["none", "none", "kind", "sig", "signer", "chal-other-live", "chal-closed
         "relay-dup-wrong-first", "relay-substring", "relay-host-only", "relay-empty", "relay-superstring", "relay-scheme",
         "relay-port", "relay-bare", "relay-upper", "relay-second-url", "extra-tags", "d-601", "d-600", "d-599", "d599",
         "d600", "d601", "payload-str", "payload-list", "payload-null", "id-forged", "content", "ts-nan", "ts-inf",
-        "ts-neg-inf", "ts-string-old", "ts-float-old"]
+        "ts-neg-inf", "ts-string-old", "ts-float-old",
+        # a correct answer that also carries a genuine NIP-26 delegation from the OTHER key to the signer (any conditions): the
+        # connection becomes the signer, never the delegator
+        "deleg-victim", "deleg-victim-expired"]
 
 
 def build(k, challenge, now, mut, other_chal, closed_chal):
@@ -90,6 +93,9 @@ def build(k, challenge, now, mut, other_chal, closed_chal):
         tags[0][1] = URLS[1]
     elif mut == "extra-tags":
         tags = [["p", E.PKS[3]]] + tags + [["t", "x"]]
+    elif mut in ("deleg-victim", "deleg-victim-expired"):
+        cond = "kind=1" if mut == "deleg-victim" else "kind=1&created_at<1000"
+        tags = tags + [E.delegation_tag(1 - k, E.PKS[k], cond)]
     elif mut.startswith("d"):
         delta = int(mut[1:])
         ts = int(now) + delta
@@ -350,4 +356,91 @@ class Concurrent(Sub):
         return Result(viol, kinds == {"valid", "invalid"}, ["backend:" + backend])
 
 
-SUBCHECKS = [Auth(), Challenges(), Concurrent()]
+class AsgiHeaders(Sub):
+    """through the whole ASGI application: nothing a client puts into its HTTP headers widens what the relay answers to"""
+
+    name = "asgi-headers"
+    examples = {"quick": 60, "thorough": 480}
+    shards = {"quick": 6, "thorough": 12}
+    rule = ("create_app + falcon's ASGI conductor, authentication on with relay_urls = [ws://relay.example:7777]; 0..2 earlier "
+            "websocket connections arrive with hostile Host / X-Forwarded-Host / Origin headers naming another relay and leave; "
+            "then a connection answers its challenge with a relay tag equal to that other name (must not authenticate) or "
+            "to the configured URL (must); identity observed through what the connection may do; non-trivial = a hostile "
+            "connection came first and the answer names its host")
+
+    def strategy(self, tier):
+        hdr = st.sampled_from(["host", "x-forwarded-host", "origin", "x-forwarded-proto+host"])
+        return st.tuples(st.sampled_from(["kv", "sql"]), st.lists(hdr, max_size=2), st.sampled_from(["evil", "evil", "right"]),
+                         st.booleans()).map(list)
+
+    def run_case(self, case):
+        return H.run(self._run, case)
+
+    async def _run(self, case):
+        import falcon.testing
+        from nostr_relay import web
+        from props.c19 import AsgiStack
+
+        backend, earlier, which, same_conn_headers = case
+        viol = []
+        evil = "relay.evil.example"
+        drain = AsgiStack()._drain
+        auth_cfg = {"enabled": True, "actions": {"save": "w", "query": "r"}, "relay_urls": [URL]}
+        cfg = {"authentication": auth_cfg, "service_privatekey": bootstrap.SERVICE_SK, "message_timeout": 10**14}
+
+        def headers(kind):
+            if kind == "host":
+                return {"host": evil}
+            if kind == "x-forwarded-host":
+                return {"x-forwarded-host": evil}
+            if kind == "origin":
+                return {"origin": "https://" + evil}
+            return {"x-forwarded-proto": "wss", "host": evil, "x-forwarded-host": evil}
+
+        async def texts(ws):
+            out = []
+            for e in list(ws._collected_server_events):
+                if e.get("text"):
+                    out.append(json.loads(e["text"]))
+            return out
+
+        async with H.Rig(backend, config=cfg, file_db=True if backend == "sql" else None) as rig:
+            await rig.storage.set_auth_roles(E.PKS[0], "w")
+            rig.pump()
+            await rig.settle()
+            app = web.create_app(storage=rig.storage)
+            cond = falcon.testing.ASGIConductor(app)
+            for kind in earlier:
+                async with cond.simulate_ws("/", headers=headers(kind)) as ws0:
+                    await drain(ws0)
+                    await ws0.close()
+                await rig.settle()
+            hd = headers(earlier[0]) if (same_conn_headers and earlier) else None
+            async with cond.simulate_ws("/", headers=hd) as ws:
+                await drain(ws)
+                fr = await texts(ws)
+                challenge = next((f[1] for f in fr if f[0] == "AUTH"), None)
+                if challenge is None:
+                    raise H.HarnessError("no challenge over the ASGI stack")
+                relay = URL if which == "right" else "ws://" + evil
+                ans = E.make(0, 22242, int(rig.clock.now), [["relay", relay], ["challenge", challenge]], "")
+                await ws.send_text(json.dumps(["AUTH", ans]))
+                await drain(ws)
+                ws._collected_server_events.clear()
+                await ws.send_text(json.dumps(["EVENT", E.make(2, 1, E.T0 + 1, [], "probe")]))
+                await drain(ws)
+                fr = await texts(ws)
+                can_save = any(f[0] == "OK" and f[2] is True for f in fr)
+                if which == "right" and not can_save:
+                    viol.append(V("valid-answer-not-authenticated:asgi", "a valid answer authenticates", frames=fr[:3]))
+                if which == "evil" and can_save:
+                    viol.append(V("authenticated-without-valid-answer:relay-from-headers",
+                                  "the relay tag must name one of the configured relay URLs, whatever the HTTP headers say",
+                                  earlier=earlier, relay_tag=relay, own_headers=bool(hd)))
+                if not ws.closed:
+                    await ws.close()
+            await rig.settle()
+        return Result(viol, bool(earlier) and which == "evil", ["backend:" + backend, "answer:" + which])
+
+
+SUBCHECKS = [Auth(), Challenges(), Concurrent(), AsgiHeaders()]
